@@ -622,9 +622,15 @@ func toDeleteNotification(n *pb.Notification, timestamp int64) *pb.Notification 
 	case n.GetAtomic():
 		d.Delete = []*pb.Path{{Elem: prefix.GetElem(), Element: prefix.GetElement()}}
 	case len(prefix.GetElem()) > 0 || len(path.GetElem()) > 0:
-		d.Delete = []*pb.Path{{Elem: append(prefix.GetElem(), path.GetElem()...)}}
+		// Copy rather than append in place: the prefix may be shared by other
+		// notifications and its backing array must not be overwritten.
+		elems := make([]*pb.PathElem, 0, len(prefix.GetElem())+len(path.GetElem()))
+		elems = append(append(elems, prefix.GetElem()...), path.GetElem()...)
+		d.Delete = []*pb.Path{{Elem: elems}}
 	default:
-		d.Delete = []*pb.Path{{Element: append(prefix.GetElement(), path.GetElement()...)}}
+		elems := make([]string, 0, len(prefix.GetElement())+len(path.GetElement()))
+		elems = append(append(elems, prefix.GetElement()...), path.GetElement()...)
+		d.Delete = []*pb.Path{{Element: elems}}
 	}
 	return d
 }
